@@ -25,7 +25,7 @@ from ..x_syncnorm import normalized
 
 NORM_MODULES = ("tornado/locks.py", "tornado/queues.py", "tornado/gen.py", "tornado/concurrent.py", "tornado/ioloop.py", "tornado/platform/asyncio.py")
 from ..x_sync import callable_cfg, check_outcome_reads, in_cycle, check_none_tests, own_walk, guard_models, aug_delta, node_counts, method_call_on, exit_states, lambda_or_func_body_calls, own_find, own_settle_sites
-from .c33 import check_fifo, check_gc, check_timeout_cb, _is_grant, _grant_target, _grant_value, _timeout_param, _drop_done_test, _rename_attr
+from .c33 import wrong_timer_api, check_fifo, check_gc, check_timeout_cb, _is_grant, _grant_target, _grant_value, _timeout_param, _drop_done_test, _rename_attr
 
 TECHNIQUE = "typestate over the CFG (wake-up accounting), settle-discipline and who-may-touch lint"
 EXPLANATION = (
@@ -109,6 +109,8 @@ def check_cond_wait(ck):
         if (tfact, True) in facts:
             ck.ob("C34.cond-timeout", fi, fi.node, t == 0, "no timer without a timeout (timers=%d)" % t, construct="exit no-timeout timers=%d" % t)
         else:
+            if not tmo and wrong_timer_api(ck, "C34.cond-timeout", fi, tparam):
+                continue
             if not tmo and any(tparam in {q.dotted(a) for a in c.args} for c in q.calls(fi.node)):
                 raise AnalysisError("%s: timeout handed to a helper; registration idiom unknown" % fi.site())
             ck.ob("C34.cond-timeout", fi, fi.node, t == 1, "a wait with a timeout arms exactly one timer (timers=%d)" % t, construct="exit timeout timers=%d" % t)
@@ -536,6 +538,7 @@ def _move_dec_out_of_guard(root):
 
 
 MUTANTS = [
+    ("Condition.wait arms call_later(timeout) after converting timedeltas (seeded C34-adv5)", _in("Condition.wait", lambda root: _to_call_later(root)), "C34.cond-timeout"),
     ("Event.wait without timeout never unregisters its waiter (self-removal moved below the early return; seeded C34-adv4)", _in("Event.wait", lambda root: _move_removal_down(root)), "C34.event-wait"),
     ("a cancelled timed Event.wait leaves its waiter registered (hook acts only on a failed, not cancelled wrapper; seeded C34-adv3)", _in("Event.wait", replace_expr(lambda n: isinstance(n, ast.Lambda) and "cancel()" in ast.unparse(n), lambda n: parse_expr("lambda tf: fut.cancel() if (not tf.cancelled() and tf.exception() is not None) else None"))), "C34.event-wait"),
     ("notify(n) wakes at most one waiter (while -> if)", _in("Condition.notify", lambda root: _while_to_if(root)), "C34.notify-ts"),
@@ -598,5 +601,17 @@ def _move_removal_down(root):
                         target.orelse.insert(0, rem)
                     else:
                         body.insert(j, rem)
+                    return True
+    return False
+
+
+def _to_call_later(root):
+    for node in ast.walk(root):
+        body = getattr(node, "body", None)
+        if isinstance(body, list):
+            for i, st in enumerate(body):
+                if isinstance(st, ast.Assign) and isinstance(st.value, ast.Call) and q.call_attr(st.value) == "add_timeout":
+                    st.value.func.attr = "call_later"
+                    body.insert(i, parse_stmt("if isinstance(timeout, datetime.timedelta):\n    timeout = timeout.total_seconds()"))
                     return True
     return False
